@@ -46,7 +46,7 @@ func genC26() *rapid.Generator[c26Case] {
 			c.N = rapid.IntRange(maxN/4, maxN).Draw(t, "n")
 		}
 		c.PerRow = pick(t, "perrow", []int{50, 1, 7, 200})
-		c.FPR = pick(t, "fpr", []float64{0.01, 0.001, 0.1, 0.5, 0.0001, 0.3, 0.9, 0.03})
+		c.FPR = pick(t, "fpr", []float64{0.01, 0.001, 0.1, 0.5, 0.0001, 0.3, 0.9, 0.03, 1e-6, 1e-9})
 		c.Partitions = pick(t, "parts", []int{1, 3, 2})
 		c.Merge = chance(t, "merge", 35)
 		c.Comp = pick(t, "comp", []string{"snappy", "none"})
